@@ -182,6 +182,52 @@ fn mt_read<R: Read + io::Seek>(fmt: Fmt, src: R, dict: u32, preset: Option<&[u8]
     }
 }
 
+/// LZMA2 stream of independent units: every slice of `unit` bytes encoded by a fresh writer, the end markers of
+/// all but the last removed (what the MT writer produces).
+fn lzma2_units(data: &[u8], opts: &Opts, unit: u64) -> Result<Vec<u8>, Failure> {
+    let mut s = Vec::new();
+    let pieces: Vec<&[u8]> = if data.is_empty() { vec![data] } else { data.chunks((unit as usize).max(1)).collect() };
+    for (i, piece) in pieces.iter().enumerate() {
+        let mut part = encode_lzma(piece, opts, None, &Framing::Lzma2 { chunk: None }, &Plan::All)?;
+        if i + 1 < pieces.len() {
+            part.pop();
+        }
+        s.extend_from_slice(&part);
+    }
+    Ok(s)
+}
+
+/// Sink for the writer scenarios of C10: fails in one of four ways.
+struct FailSink {
+    calls: usize,
+    /// 0: at write call `at`; 1: on a write of the single byte 0x00 (the LZMA2 end marker); 2: on flush; 3: at the first call
+    mode: u8,
+    at: usize,
+}
+
+impl Write for FailSink {
+    fn write(&mut self, b: &[u8]) -> io::Result<usize> {
+        let c = self.calls;
+        self.calls += 1;
+        let fail = match self.mode {
+            0 => c == self.at,
+            1 => b == [0u8],
+            3 => c == 0,
+            _ => false,
+        };
+        if fail {
+            return Err(io::Error::new(io::ErrorKind::PermissionDenied, "VERIF-INJECTED"));
+        }
+        Ok(b.len())
+    }
+    fn flush(&mut self) -> io::Result<()> {
+        if self.mode == 2 {
+            return Err(io::Error::new(io::ErrorKind::PermissionDenied, "VERIF-INJECTED"));
+        }
+        Ok(())
+    }
+}
+
 fn st_read(fmt: Fmt, stream: &[u8], dict: u32, preset: Option<&[u8]>, cap: usize) -> io::Result<Vec<u8>> {
     match fmt {
         Fmt::Lzma2 => {
@@ -1041,7 +1087,7 @@ impl Property for C10 {
 
         let stream: Option<Arc<Vec<u8>>> = if reader {
             let mut s = match fmt {
-                Fmt::Lzma2 => encode_lzma(&data, &case.opts, None, &Framing::Lzma2 { chunk: Some(unit) }, &Plan::Fixed(1500))?,
+                Fmt::Lzma2 => lzma2_units(&data, &case.opts, unit)?,
                 Fmt::Lzip => encode_lzip(&data, &LzipCfg { opts: case.opts.clone(), member: Some(unit) }, &Plan::Fixed(1500))?,
             };
             if matches!(prefix, Prefix::AfterError) && s.len() > 40 {
@@ -1094,9 +1140,17 @@ impl Property for C10 {
                     Prefix::Partial(p) => d2.len() * p as usize / 1000,
                     _ => d2.len(),
                 };
+                // "up to an error": the sink fails (at a write call, on the one-byte end marker, on flush, at once)
+                let after_error = matches!(prefix, Prefix::AfterError);
+                let dl = d2.len();
+                let sink = move || FailSink {
+                    calls: 0,
+                    mode: if after_error { (dl % 4) as u8 } else { 9 },
+                    at: dl % 7,
+                };
                 match fmt {
                     Fmt::Lzma2 => {
-                        if let Ok(mut w) = LZMA2WriterMT::new(Vec::new(), l2_options(&opts, unit, None), max_workers) {
+                        if let Ok(mut w) = LZMA2WriterMT::new(sink(), l2_options(&opts, unit, None), max_workers) {
                             for c in d2[..n].chunks(2500) {
                                 if w.write_all(c).is_err() {
                                     break;
@@ -1111,7 +1165,7 @@ impl Property for C10 {
                     }
                     Fmt::Lzip => {
                         let cfg = LzipCfg { opts: opts.clone(), member: Some(unit) };
-                        if let Ok(mut w) = LZIPWriterMT::new(Vec::new(), lzip_options(&cfg), max_workers) {
+                        if let Ok(mut w) = LZIPWriterMT::new(sink(), lzip_options(&cfg), max_workers) {
                             for c in d2[..n].chunks(2500) {
                                 if w.write_all(c).is_err() {
                                     break;
